@@ -169,18 +169,18 @@ theorem sp_iterate (var : Bytes) (cols : Option Nat) (bodyM : M Status) (bodyT :
     | cont e => exact ih _ _ _
 
 /-- the head of a loop: collection, iterator, `offset`, `limit`, the clause-count check; the items selected -/
-def loopHeader (P : Prims) (loc : Loc) (e : Expr) (mods : LoopMods) (tooMany : Bool) : M (List GoVal) := do
+def loopHeader (budget : Int) (P : Prims) (loc : Loc) (e : Expr) (mods : LoopMods) (tooMany : Bool) : M (List GoVal) := do
   let env ← M.getEnv
   let v ← M.ofRes (evaluate P env e)
-  let items0 ← M.ofRes (loopItems v)
+  let items0 ← M.ofRes (loopItems budget v)
   let off ← intModifier P mods.offset loc
   let lim ← intModifier P mods.limit loc
   if tooMany then M.fail (.plain (.other "forElse")) else pure (selectItems mods.reversed off lim items0)
 
-theorem loopRun_header (P : Prims) (path : Bytes) (loc : Loc) (tablerow : Bool) (var : Bytes) (e : Expr) (mods : LoopMods)
+theorem loopRun_header {budget : Int} (P : Prims) (path : Bytes) (loc : Loc) (tablerow : Bool) (var : Bytes) (e : Expr) (mods : LoopMods)
     (bodyM : M Status) (tooMany : Bool) (elseM : Option (M Status)) :
-    loopRun P path loc tablerow var e mods bodyM tooMany elseM =
-      wrapAt path loc (loopHeader P loc e mods tooMany >>= fun items =>
+    loopRun budget P path loc tablerow var e mods bodyM tooMany elseM =
+      wrapAt path loc (loopHeader budget P loc e mods tooMany >>= fun items =>
         loopDispatch P loc tablerow var mods.cols bodyM elseM items) := by
   unfold loopRun loopHeader
   congr 1
@@ -189,8 +189,8 @@ theorem loopRun_header (P : Prims) (path : Bytes) (loc : Loc) (tablerow : Bool) 
   · rfl
   · rfl
 
-theorem ownM_loopHeader (P : Prims) (loc : Loc) (e : Expr) (mods : LoopMods) (tooMany : Bool) :
-    OwnM loc (loopHeader P loc e mods tooMany) := by
+theorem ownM_loopHeader {budget : Int} (P : Prims) (loc : Loc) (e : Expr) (mods : LoopMods) (tooMany : Bool) :
+    OwnM loc (loopHeader budget P loc e mods tooMany) := by
   unfold loopHeader
   refine ownM_bind ownM_getEnv (fun env => ownM_bind (ownM_ofRes _) (fun v => ownM_bind (ownM_ofRes _) (fun items0 =>
     ownM_bind (ownM_intModifier _ _) (fun off => ownM_bind (ownM_intModifier _ _) (fun lim => ?_)))))
@@ -201,9 +201,9 @@ theorem ownM_loopHeader (P : Prims) (loc : Loc) (e : Expr) (mods : LoopMods) (to
 /-- one execution of a `for`/`tablerow` block. A failure of the head is located at the loop tag; with nothing
     selected the `else` clause runs; otherwise the columns are read (a failure there: at the tag) and the items
     are visited. Everything below is seen through the wrapping of the loop tag. -/
-def loopTrace (P : Prims) (path : Bytes) (loc : Loc) (tablerow : Bool) (var : Bytes) (e : Expr) (mods : LoopMods)
+def loopTrace (budget : Int) (P : Prims) (path : Bytes) (loc : Loc) (tablerow : Bool) (var : Bytes) (e : Expr) (mods : LoopMods)
     (bodyM : M Status) (bodyT : RS → Tr) (tooMany : Bool) (elseT : Option (RS → Tr)) (s : RS) : Tr :=
-  (ownTr loc (loopHeader P loc e mods tooMany s)).bind (loopHeader P loc e mods tooMany s).pureRet fun a =>
+  (ownTr loc (loopHeader budget P loc e mods tooMany s)).bind (loopHeader budget P loc e mods tooMany s).pureRet fun a =>
     match a.1, elseT with
     | [], some t => (t a.2).wrap path loc
     | items, _ =>
@@ -246,15 +246,15 @@ theorem iterate_done (var : Bytes) (cols : Option Nat) (body : M Status) (n : Na
           | done => exact ih _ _ _ _ _ h
           | cont e => exact ih _ _ _ _ _ h
 
-theorem sp_loopRun (P : Prims) (path : Bytes) (loc : Loc) (tablerow : Bool) (var : Bytes) (e : Expr) (mods : LoopMods)
+theorem sp_loopRun {budget : Int} (P : Prims) (path : Bytes) (loc : Loc) (tablerow : Bool) (var : Bytes) (e : Expr) (mods : LoopMods)
     (bodyM : M Status) (bodyT : RS → Tr) (hb : ∀ s, SpS (bodyM s) (bodyT s)) (tooMany : Bool)
     (elseM : Option (M Status)) (elseT : Option (RS → Tr))
     (he : match elseM, elseT with
       | some m, some t => ∀ s, SpS (m s) (t s)
       | none, none => True
       | _, _ => False) (s : RS) :
-    SpS (loopRun P path loc tablerow var e mods bodyM tooMany elseM s)
-      (loopTrace P path loc tablerow var e mods bodyM bodyT tooMany elseT s) := by
+    SpS (loopRun budget P path loc tablerow var e mods bodyM tooMany elseM s)
+      (loopTrace budget P path loc tablerow var e mods bodyM bodyT tooMany elseT s) := by
   rw [loopRun_header, wrapAt_bind]
   unfold loopTrace
   rw [wrapFailAt_apply]
@@ -350,10 +350,10 @@ def traceNode (c : RCtx) : Node → RS → Tr
        | _ => {})
   | .loop line tablerow var e mods body clauses, s =>
     match clauses with
-    | [] => loopTrace c.P c.cfg.path ⟨line, true⟩ tablerow var e mods (renderBlockBody c body) (traceBlockBody c body) false none s
-    | [els] => loopTrace c.P c.cfg.path ⟨line, true⟩ tablerow var e mods (renderBlockBody c body) (traceBlockBody c body) false
+    | [] => loopTrace c.cfg.budget c.P c.cfg.path ⟨line, true⟩ tablerow var e mods (renderBlockBody c body) (traceBlockBody c body) false none s
+    | [els] => loopTrace c.cfg.budget c.P c.cfg.path ⟨line, true⟩ tablerow var e mods (renderBlockBody c body) (traceBlockBody c body) false
         (some (traceBlockBody c els)) s
-    | _ :: _ :: _ => loopTrace c.P c.cfg.path ⟨line, true⟩ tablerow var e mods (renderBlockBody c body) (traceBlockBody c body) true none s
+    | _ :: _ :: _ => loopTrace c.cfg.budget c.P c.cfg.path ⟨line, true⟩ tablerow var e mods (renderBlockBody c body) (traceBlockBody c body) true none s
   | .incl line args, s => (inclInner c line args s).wrap c.cfg.path ⟨line, true⟩
 def traceList (c : RCtx) : List Node → RS → Tr
   | [], _ => {}
@@ -812,7 +812,7 @@ theorem located_traceNode (c : RCtx) : ∀ (n : Node) (s : RS), (traceNode c n s
   | .caseB _ _ _, s => by unfold traceNode; exact located_wrap _ _ _
   | .incl _ _, s => by unfold traceNode; exact located_wrap _ _ _
   | .loop line tablerow var e mods body clauses, s => by
-    have hl : ∀ tooMany elseT, (loopTrace c.P c.cfg.path ⟨line, true⟩ tablerow var e mods (renderBlockBody c body)
+    have hl : ∀ tooMany elseT, (loopTrace c.cfg.budget c.P c.cfg.path ⟨line, true⟩ tablerow var e mods (renderBlockBody c body)
         (traceBlockBody c body) tooMany elseT s).Located := by
       intro tooMany elseT
       unfold loopTrace
